@@ -94,9 +94,14 @@ pub fn shifted_diff(a: &tiny_skia::Pixmap, b: &tiny_skia::Pixmap, dx: i32, dy: i
 
 /// Some(description) when render(translate(dx,dy)·M) is not the shifted render(M)
 pub fn translate_differs(tree: &usvg::Tree, scale: f32, dx: i32, dy: i32) -> Option<(String, bool)> {
+    translate_differs_m(tree, scale, dx, dy, 48)
+}
+
+/// `m`: the margin around the page on the comparison canvas; with a margin smaller than the shift the content
+/// crosses the canvas edge in one of the two renderings (only the window both canvases contain is compared)
+pub fn translate_differs_m(tree: &usvg::Tree, scale: f32, dx: i32, dy: i32, m: u32) -> Option<(String, bool)> {
     let size = tree.size().to_int_size();
     let (w, h) = (((size.width() as f32 * scale) as u32).min(400), ((size.height() as f32 * scale) as u32).min(400));
-    let m = 48u32;
     let (cw, ch) = (w + 2 * m, h + 2 * m);
     let base = tiny_skia::Transform::from_scale(scale, scale);
     let ra = pan::catch(|| crate::rend::render(tree, cw, ch, base.post_translate(m as f32, m as f32)));
@@ -189,6 +194,41 @@ pub fn search(tier: &str, seed: u64, s: &mut Search) {
         );
         let Ok(Ok(tree)) = pan::catch(|| usvg::Tree::from_str(&svg, &crate::corpus::opts_for(None))) else { continue };
         check_doc(s, "canvas-relative", &svg, &tree, &mut rng);
+    }
+    // an SVG used as an image that contains a filter whose region crosses the left / top edge of the image (and,
+    // depending on the shift, of the canvas): the nested rendering must not depend on where the canvas edge falls
+    let ni = (if tier == "thorough" { 240 } else { 32 }) * mult;
+    for i in 0..ni {
+        let prim = match i % 5 {
+            0 => r#"<feFlood flood-color="gold" x="10" y="10" width="20" height="20" result="a"/><feMerge><feMergeNode in="SourceGraphic"/><feMergeNode in="a"/></feMerge>"#.to_string(),
+            1 => r#"<feTurbulence baseFrequency="0.08" numOctaves="1" result="t"/><feComposite in="t" in2="SourceGraphic" operator="in"/>"#.to_string(),
+            2 => r#"<feDiffuseLighting lighting-color="white" surfaceScale="3"><fePointLight x="20" y="15" z="12"/></feDiffuseLighting>"#.to_string(),
+            3 => format!(r#"<feGaussianBlur stdDeviation="{}"/>"#, rng.pick(&["2", "3.5"])),
+            _ => r#"<feOffset dx="6" dy="4" x="5" y="5" width="30" height="25"/>"#.to_string(),
+        };
+        let (fx, fy) = (-rng.range(3, 15), -rng.range(3, 15));
+        let inner_svg = format!(
+            r##"<svg xmlns="http://www.w3.org/2000/svg" width="120" height="80"><filter id="f" filterUnits="userSpaceOnUse" x="{fx}" y="{fy}" width="90" height="70">{prim}</filter><rect x="0" y="0" width="50" height="40" fill="#08f" filter="url(#f)"/><circle cx="90" cy="50" r="15" fill="#f0f" filter="url(#f)"/></svg>"##
+        );
+        let uri = format!("data:image/svg+xml;base64,{}", crate::c17::b64(inner_svg.as_bytes()));
+        let (ix, iy) = (rng.range(0, 30), rng.range(0, 30));
+        let svg = format!(
+            r##"<svg xmlns="http://www.w3.org/2000/svg" xmlns:xlink="http://www.w3.org/1999/xlink" width="200" height="150"><image x="{ix}" y="{iy}" width="120" height="80" xlink:href="{uri}"/></svg>"##
+        );
+        let Ok(Ok(tree)) = pan::catch(|| usvg::Tree::from_str(&svg, &crate::corpus::opts_for(None))) else { continue };
+        // no margin: the filter region of the nested document crosses the canvas edge in one rendering only
+        let scale = if rng.chance(1, 3) { 2.0f32 } else { 1.0 };
+        let (dx, dy) = (-(rng.range(1, 40) as i32), -(rng.range(0, 30) as i32));
+        let key = format!("{} <!-- inner: {} --> d=({},{}) scale={}", svg, inner_svg, dx, dy, scale);
+        match translate_differs_m(&tree, scale, dx, dy, 0) {
+            None => s.case("image-with-filter-render-failed", &key, false),
+            Some((what, painted)) => {
+                s.case("image-with-filter", &key, painted);
+                if !what.is_empty() {
+                    s.finding("oracle:translate-commutes:image-with-filter", &format!("render(translate({},{})·M) differs from the shifted render(M) at scale {} (no canvas margin): {}", dx, dy, scale, what), &key);
+                }
+            }
+        }
     }
     // filter regions far larger than the canvas (the layer is limited by the 5x5-canvas box, the region is not),
     // with primitives whose output depends on position
